@@ -712,16 +712,19 @@ impl ClusterHandler for NocHandler {
         let (status, opener_fabric_removed) = ctx.exchange().with_state(|state| {
             let sess = ctx.exchange().id().session(&mut state.sessions);
 
-            if state.fabrics.remove(fab_idx).is_ok() {
+            if state.fabrics.get(fab_idx).is_some() {
                 // If our own session is running on the fabric being removed,
                 // we need to expire it rather than immediately remove it, so that
                 // the response can be sent back properly
                 let expire_sess_id =
                     (sess.get_local_fabric_idx() == fab_idx.get()).then_some(sess.id());
 
-                // Remove all sessions related to the fabric being removed
-                // If `expire_sess_id` is Some, the session will be expired instead of removed.
-                state.sessions.remove_for_fabric(fab_idx, expire_sess_id);
+                // The store goes FIRST, the fabric table and the sessions last: when a store
+                // write fails, the command is answered with the error and the fabric is still
+                // fully there (in the table and in the store). Removing it from the table first
+                // would leave a stale stored copy behind, which a later fail-safe rollback (or
+                // restart) of ANOTHER fabric that re-used the local index would resurrect -
+                // together with the sessions of that other fabric.
 
                 // Drop any CASE session resumption records that were
                 // scoped to this fabric so a subsequent CASE handshake
@@ -734,6 +737,14 @@ impl ClusterHandler for NocHandler {
                 #[cfg(feature = "case-resumption")]
                 state.purge_resumption_for_fabric(fab_idx, ctx.kv())?;
 
+                persist.remove(fab_idx)?;
+
+                unwrap!(state.fabrics.remove(fab_idx));
+
+                // Remove all sessions related to the fabric being removed
+                // If `expire_sess_id` is Some, the session will be expired instead of removed.
+                state.sessions.remove_for_fabric(fab_idx, expire_sess_id);
+
                 // Notify that a session was removed
                 ctx.exchange().matter().transport().notify_session_removed();
 
@@ -742,8 +753,6 @@ impl ClusterHandler for NocHandler {
 
                 // Note that since we might have removed our own session, the exchange
                 // will terminate with a "NoSession" error, but that's OK and handled properly
-
-                persist.remove(fab_idx)?;
 
                 // Matter Core spec: if the removed fabric is the
                 // one that installed the TrustedTimeSource, the device SHALL
